@@ -6,7 +6,7 @@
    the Reassembler).  A schedule is any list of thread ids. *)
 From Coq Require Import List ZArith Bool Permutation.
 Import ListNotations.
-Require Import Reassembler ReasmInv ReasmC01 ReasmConc ConcStep ConcAll.
+Require Import Reassembler ReasmInv ReasmC01 ReasmConc ConcStep ConcAll ConcFlush.
 Open Scope Z_scope.
 
 (* for all schedules, all programs, all thread counts, all callback behaviours,
@@ -17,4 +17,28 @@ Theorem C11_all_schedules_partial : forall (cb : list msg -> list call) (cfg : c
   (exists rest, Permutation (putmsgs tr) (delivered tr ++ rest)) /\ (cas_oks tr <= 1)%nat.
 Proof. exact ConcAll.C11_all_schedules. Qed.
 
+
+(* once every frame of every thread has run (all calls have returned and all callbacks are done), every
+   message put before Close's Clear step - in particular every message whose push returned before Close
+   was invoked - has been delivered; with the theorem above, exactly once *)
+Theorem C11_flushed_after_close : forall (cb : list msg -> list call) (cfg : config) sched ths, pending ths = [] ->
+  let '(ths', s', tr) := crun cb cfg sched ths init in
+  cleared tr = true -> Forall (fun th => stack th = []) ths' ->
+  exists R, Permutation (delivered tr) (putmsgs (before_clear tr) ++ R).
+Proof. exact ConcFlush.flushed_after_close. Qed.
+
+(* if any Close call has returned, exactly one compare-and-swap won: exactly one Close succeeds *)
+Theorem C11_exactly_one_close : forall (cb : list msg -> list call) (cfg : config) sched ths, Forall (fun th => stack th = []) ths ->
+  let '(ths', s', tr) := crun cb cfg sched ths init in
+  existsb is_close_ret tr = true -> cas_oks tr = 1%nat.
+Proof. exact ConcFlush.close_returned_one_winner. Qed.
+
+(* every delivered group holds one sequence number *)
+Theorem C11_single_sequence_groups : forall (cb : list msg -> list call) (cfg : config) sched ths, Forall (fun th => stack th = []) ths ->
+  let '(ths', s', tr) := crun cb cfg sched ths init in Forall ev_ok tr.
+Proof. exact ConcFlush.groups_single_sequence. Qed.
+
 Print Assumptions C11_all_schedules_partial.
+Print Assumptions C11_flushed_after_close.
+Print Assumptions C11_exactly_one_close.
+Print Assumptions C11_single_sequence_groups.
